@@ -604,7 +604,7 @@ func c14hdrEnrichStep(t *tr, util *packages.Package) string {
 
 func c14hdrExtra(t *tr) string {
 	var b strings.Builder
-	b.WriteString("open Pandora.Model.C14H\n\n")
+	b.WriteString("open Pandora.Model.C08 Pandora.Model.C14H\n\n")
 	p := t.pkg
 	ammo := c14hdrImport(t, p, "github.com/yandex/pandora/components/providers/http/decoders/ammo")
 	util := c14hdrImport(t, p, "github.com/yandex/pandora/components/providers/http/util")
@@ -618,5 +618,6 @@ func c14hdrExtra(t *tr) string {
 	b.WriteString(c14hdrJSON(t, p))
 	b.WriteString(c14hdrRaw(t, p, ammo))
 	b.WriteString(c14hdrEnrichStep(t, util))
+	b.WriteString(c14hdrScan(t, p))
 	return b.String()
 }
